@@ -46,7 +46,7 @@ def int_decorator(size, id_, min_, max_):
                 raise ProphyError("not an int")
             if not min_ <= value <= max_:
                 raise ProphyError("value: {} out of {}B integer's bounds: [{}, {}]".format(value, size, min_, max_))
-            return value
+            return int(value) if isinstance(value, bool) else value
 
         cls._check = check
 
